@@ -126,7 +126,7 @@ PROPS = {
         'No schedule or fault in this property; the only non-input dimension is the unspecified evaluation order, which the simulator cannot control and therefore samples with the two compilers present. Trusted: the per-event list model.',
         'Each evaluation is one seeded history of 8-35 operations on one of thirteen EventDispatcher / EventQueue instantiations, run in a g++ build and in a clang++ build. Non-trivial = contains a dispatch; distinct = distinct plan hashes.',
         assumptions=['rvalue-reference prototypes do not compile with the library and are not generated', 'only the compilers and the standard library installed here (g++ 12, clang++ 14, libstdc++) can be sampled']),
-    'C05': seq_prop('seq_queue', [st('c05', 'seq_queue', 'c05', 300000, 6000000)],
+    'C05': seq_prop('seq_queue', [st('c05', 'seq_queue', 'c05', 300000, 6000000), st('c05-getevent-policies-g++', 'seq_disp', 'c05q', 60000, 1200000), st('c05-getevent-policies-clang++', 'seq_disp_clang', 'c05q', 60000, 1200000)],
         'seeded queue histories incl. operations issued from listeners and predicates, executed in lockstep with a FIFO queue model (exactly-once, order, argument values, every boolean result)',
         'Seeded search over single-threaded histories of enqueue (three argument forms, caller lvalues mutated afterwards), process, processOne, processIf, processUntil (mask predicates, predicates without arguments, predicates and listeners carrying scripts), peekEvent, takeEvent (+dispatch), clearEvents, emptyQueue and listener changes. Every listener and predicate call the real code makes is compared, when it happens, with the reference queue model; contents and the front event are compared after every step.',
         'Trusted: the reference queue model and the ledger. Instantiations: const-reference and by-value prototypes, a move-only payload, SingleThreading / MultipleThreading / SimMutex in one task.',
